@@ -87,6 +87,21 @@ def main():
                 if not any(ch.tag in ("failure", "error", "skipped") for ch in tc):
                     passed.add(f"{tc.get('classname')}::{tc.get('name')}")
             stable = set(json.load(open("/root/.vp/BASELINE.json"))["stable_pass"])
+            missing = sorted(stable - passed)
+            if missing and len(missing) <= 40:
+                # the IO tests share file names in the working directory and race under xdist: re-run the lost ones serially
+                ids = []
+                for m in missing:
+                    cls, name = m.split("::", 1)
+                    ids.append(cls.replace(".", "/") + ".py::" + name)
+                j2 = os.path.join(scr, "junit2.xml")
+                subprocess.run(["/venv/bin/python", "-m", "pytest", "-q", "-p", "no:cacheprovider", "--timeout=900", "-p", "no:xdist", f"--junitxml={j2}"] + ids, cwd=repo,
+                               env=dict(os.environ, PYTHONPATH=repo, PYTHONDONTWRITEBYTECODE="1"), capture_output=True, text=True, timeout=3000)
+                if os.path.exists(j2):
+                    for tc in ET.parse(j2).iter("testcase"):
+                        if not any(ch.tag in ("failure", "error", "skipped") for ch in tc):
+                            passed.add(f"{tc.get('classname')}::{tc.get('name')}")
+                res["rerun_serially"] = missing
             res["tests_passed"] = len(passed)
             res["stable_missing"] = sorted(stable - passed)[:5]
             print(f"tests: {len(passed)} passed; stable baseline tests no longer passing: {len(stable - passed)} {sorted(stable - passed)[:3]}")
